@@ -7,6 +7,12 @@ Theorem C11_queue_capacities : connectionChanCaps = [10; 10]%Z.
 Proof. reflexivity. Qed.
 Print Assumptions C11_queue_capacities.
 
+(* the shim sets no deadline and no size limit on a shimmed connection or on a shim request (the queue model below has no
+   step that ends a session or refuses a message by itself): regenerated from the source of agent/websockets *)
+Theorem C11_no_limits : websocketsLimitCalls = [].
+Proof. reflexivity. Qed.
+Print Assumptions C11_no_limits.
+
 Theorem C11_base64_roundtrip : forall bs, Forall (fun b => b < 256) bs -> b64_decode (b64_encode bs) = Some bs.
 Proof. exact b64_roundtrip. Qed.
 Print Assumptions C11_base64_roundtrip.
